@@ -7,10 +7,10 @@ AnyC(t) == [k |-> "any", t |-> t]
 Cons == { AnyC(t) : t \in {"string", "number", "bool", "list", "map", "object", "dynamic"} }
         \cup { [k |-> "ref", t |-> t] : t \in {"dynamic", "string", "number"} } \cup { [k |-> "lit", t |-> t] : t \in {"bool", "string"} }
         \cup { [k |-> "kw", t |-> ""], [k |-> "listref", t |-> "string"], [k |-> "setany", t |-> "string"] }
-Typed == {"", "l", "loc.", "loc.s", "loc.o", "loc.o.", "loc.l", "s", "self.", "self.p", "b", "b.", "b.part[0].", "c.", "self.t", "u", "mk", "t", "f", "k", "zz", "loc.x"}
+Typed == {"", "l", "loc.", "loc.s", "loc.o", "loc.o.", "loc.l", "s", "self.", "self.p", "b", "b.", "b.part[0].", "c.", "self.t", "u", "mk", "t", "f", "k", "zz", "loc.x", "d.", "d.t", "d.two."}
 Places == { [level |-> 0, self |-> FALSE, inloc |-> FALSE], [level |-> 0, self |-> FALSE, inloc |-> TRUE],
             [level |-> 1, self |-> TRUE, inloc |-> FALSE], [level |-> 1, self |-> FALSE, inloc |-> FALSE],
-            [level |-> 2, self |-> TRUE, inloc |-> FALSE] }
+            [level |-> 2, self |-> TRUE, inloc |-> FALSE], [level |-> 3, self |-> FALSE, inloc |-> FALSE] }
 \* (inside block loc the attribute being edited has loc's own any-expression constraint of dynamic type)
 Init == \E c \in Cons, t \in Typed, p \in Places : (p.inloc => c = AnyC("dynamic")) /\ case = [cons |-> c, typed |-> t, place |-> p]
 Next == UNCHANGED vars
@@ -18,6 +18,7 @@ Spec == Init /\ [][Next]_vars
 \* sanity: block-local names are never visible outside their block; the edited attribute is never visible
 LocalOnlyInside == /\ \A lvl \in {0, 1}, sf \in BOOLEAN : (lvl = 0 \/ ~sf) => Visible([level |-> lvl, self |-> sf, edited |-> {}]) \cap SelfDecl = {}
                    /\ Visible([level |-> 2, self |-> TRUE, edited |-> {}]) \cap (SelfDecl \ SelfC) = {}
+OwnBlockHidden == \A d \in Visible([level |-> 3, self |-> FALSE, edited |-> {}]) : ~IsPrefixStr("d.two", d)
 NotItself == \A d \in LocDecl : d \notin Visible([level |-> 0, self |-> FALSE, edited |-> {d}])
 Emit == PrintT(ToJson(case))
 =============================================================================
